@@ -18,7 +18,7 @@ func init() {
 		Stub:         []string{"local Rails API and 1-4 remote clusters: node models on the simulated transport (http.DefaultTransport, arvados.DefaultSecureClient, arvados.InsecureHTTPClient)", "PostgreSQL: not used on these paths"},
 		ExpectProbes: []string{"ok-pdh", "ok-pdh-hints", "ok-uuid", "signatures-rewritten", "error-pdh-digit-off", "error-pdh-wrong-length", "local-holds"},
 		LevelText:    "seeded exploration of manifests x requested ids x per-remote byzantine behaviours x answer orders/timings against the real controller Handler; oracles: a 200 carries a manifest whose portable data hash, recomputed by a reference written from the definition, is the requested hash+size; the relayed text equals a delivered answer with only +A<sig>@<exp> -> +R<cluster>-<sig>@<exp> (token-level reference rewrite); a request fails only if no honest holder that was asked answers before the deadline",
-		LevelNote:    "trusted: the harness transport (pending requests identified by method+host+path because the controller's query strings are built from map iteration), the reference PDH/rewrite functions, go1.26.8 synctest. API.MaxRequestAmplification is drawn only from values that do not contend (0 or >= number of remotes): the legacy fan-out lets plain goroutines race for a channel semaphore, which the simulated world cannot order.",
+		LevelNote:    "trusted: the harness transport (pending requests identified by method+host+path because the controller's query strings are built from map iteration), the reference PDH/rewrite functions, go1.26.8 synctest. API.MaxRequestAmplification is drawn only from values that do not contend (0 or >= number of remotes): the legacy fan-out lets goroutines race for a channel semaphore (they are simulator tasks now, rules R1/R2/R4 on fed_collections.go and fed_generic.go, but the restriction is kept).",
 		Technique:    "deterministic simulation: real controller Handler over a simulated transport with byzantine remote-cluster models, seeded response ordering and delays; reference-implementation oracles",
 		DesignRef:    "5.18"})
 	props = append(props, &Prop{ID: "C19", Harness: "federation", Level: "exploration", Also: []string{"C19K"},
